@@ -6,9 +6,11 @@ import CvssVerif.Basic.F64
   significand `m ≠ 0` and exponent `e` whose result is a normal number (`rnd_normal`).  The statement is about integers only:
   the value of a pattern `b` is `man b · 2^(eb b − BIAS)` with sign `sgn b` (the standard decoding of the three fields, `fields_of_sum`,
   `pack_norm`, `pack_carry`); `mul` and `add` call `rnd` on the exact integer product resp. aligned sum (`mul_eq_rnd`, `add_same_sign`,
-  by unfolding), so on normal results they are the correctly rounded product and sum.  What remains a description validated by tests
-  rather than proved: the sticky-bit step of `div`/`ofDec` (`rndRat`), gradual underflow (never reached by a score), and that
-  amd64 Go evaluates `float64` expressions operation by operation in binary64 (no fused multiply-add, no extended precision).
+  `add_opposite_sign`, by unfolding), so on normal results they are the correctly rounded product, sum and difference; `div` and the
+  decimal constants go through `rndRat`, whose sticky bit is proved to decide exactly as the discarded fraction of the exact quotient
+  would (`sticky_core`, `rndRat_normal`).  What remains a description validated by tests rather than proved: `round`, `floor`, `toInt`,
+  `powInt` as transcriptions of Go's `math` package, gradual underflow (never reached by a score), and that amd64 Go evaluates
+  `float64` expressions operation by operation in binary64 (no fused multiply-add, no extended precision).
 -/
 namespace CvssVerif.F64
 
@@ -197,5 +199,156 @@ theorem add_same_sign (a b : Nat) (h : sgn a = sgn b)
 /-- non-vacuity: 0.85 × 0.77 (two CVSS weights) is a normal product; `rnd_normal` applies to it -/
 example : 2978 ≤ (eb 0x3FEB333333333333 + eb 0x3FE8A3D70A3D70A4 - BIAS) + Nat.log2 (man 0x3FEB333333333333 * man 0x3FE8A3D70A3D70A4) ∧
     man 0x3FEB333333333333 * man 0x3FE8A3D70A3D70A4 ≠ 0 := by decide
+
+end CvssVerif.F64
+namespace CvssVerif.F64
+
+/-- **Sticky bit.**  Let `N/d` be a positive rational, `y = 2·⌊N/d⌋ + (1 if d ∤ N else 0)` its doubled floor with the sticky bit, and let
+    `q` be a round-half-even of `y / P` for an even `P = 2·H` with `H` even (at least two bits are dropped).  Then `q` is also a
+    round-half-even of the exact `2N/d / P`: the sticky bit decides exactly as the discarded fraction would. -/
+theorem sticky_core (N d y q P H : Nat) (hd : 0 < d) (hP : P = 2 * H) (hH : H % 2 = 0)
+    (hy : y = 2 * (N / d) + (if N % d = 0 then 0 else 1))
+    (h1 : 2 * y ≤ 2 * (q * P) + P) (h2 : 2 * (q * P) ≤ 2 * y + P)
+    (h3 : (2 * y = 2 * (q * P) + P ∨ 2 * y + P = 2 * (q * P)) → q % 2 = 0) :
+    2 * (2 * N) ≤ (2 * (q * P) + P) * d ∧ (2 * (q * P)) * d ≤ (2 * (2 * N) + P * d) ∧
+      ((2 * (2 * N) = (2 * (q * P) + P) * d ∨ 2 * (2 * N) + P * d = (2 * (q * P)) * d) → q % 2 = 0) := by
+  generalize hA : q * P = A at *
+  have hdm : N = d * (N / d) + N % d := (Nat.div_add_mod N d).symm
+  have hr : N % d < d := Nat.mod_lt _ hd
+  generalize hQ : N / d = Q at *
+  generalize hR : N % d = R at *
+  -- everything is linear in the atoms A, H, Q, R once the products with d are expanded
+  by_cases hR0 : R = 0
+  · subst hR0
+    simp only [if_true, Nat.add_zero] at hy hdm
+    subst hy
+    have e1 : (2 * A + P) * d = 2 * (A * d) + P * d := by rw [Nat.add_mul, Nat.mul_assoc]
+    have e2 : 2 * A * d = 2 * (A * d) := Nat.mul_assoc _ _ _
+    rw [e1, e2, hdm]
+    -- 2y ≤ 2A + P, scaled by d
+    have s1 : 2 * (2 * Q) * d ≤ (2 * A + P) * d := Nat.mul_le_mul_right d h1
+    have s2 : 2 * A * d ≤ (2 * (2 * Q) + P) * d := Nat.mul_le_mul_right d h2
+    rw [e1] at s1; rw [e2, Nat.add_mul] at s2
+    have e3 : 2 * (2 * Q) * d = 2 * (2 * (d * Q)) := by
+      rw [Nat.mul_assoc, Nat.mul_assoc, Nat.mul_comm Q d]
+    rw [e3] at s1 s2
+    refine ⟨s1, by omega, ?_⟩
+    intro h
+    apply h3
+    rcases h with h | h
+    · left
+      have : (2 * (2 * Q)) * d = (2 * A + P) * d := by rw [e1, e3]; exact h
+      exact Nat.eq_of_mul_eq_mul_right hd this
+    · right
+      have : (2 * (2 * Q) + P) * d = (2 * A) * d := by rw [Nat.add_mul, e3, e2]; exact h
+      exact Nat.eq_of_mul_eq_mul_right hd this
+  · -- d ∤ N: y is odd, 2A and P are multiples of 4, so the two bounds on y have a unit of slack and there is no tie
+    simp only [if_neg hR0] at hy
+    subst hy
+    obtain ⟨H', hH'⟩ : ∃ H', H = 2 * H' := ⟨H / 2, by omega⟩
+    have hA4 : A = 4 * (q * H') := by rw [← hA, hP, hH']; ac_rfl
+    generalize q * H' = B at hA4
+    have l1 : 4 * Q + 4 ≤ 2 * A + P := by omega
+    have l2 : 2 * A ≤ 4 * Q + P := by omega
+    have m1 : (4 * Q + 4) * d ≤ (2 * A + P) * d := Nat.mul_le_mul_right d l1
+    have m2 : 2 * A * d ≤ (4 * Q + P) * d := Nat.mul_le_mul_right d l2
+    have x1 : (4 * Q + 4) * d = 4 * (d * Q) + 4 * d := by rw [Nat.add_mul, Nat.mul_assoc, Nat.mul_comm Q d]
+    have x2 : (4 * Q + P) * d = 4 * (d * Q) + P * d := by rw [Nat.add_mul, Nat.mul_assoc, Nat.mul_comm Q d]
+    rw [x1] at m1; rw [x2] at m2
+    have hR1 : 0 < R := Nat.pos_of_ne_zero hR0
+    generalize (2 * A + P) * d = U at *
+    generalize 2 * A * d = W at *
+    generalize P * d = Pd at *
+    generalize d * Q = dQ at *
+    refine ⟨by omega, by omega, ?_⟩
+    intro h
+    exfalso; omega
+end CvssVerif.F64
+namespace CvssVerif.F64
+
+/-- **`rndRat` (hence `div` and the decimal constants `ofDec`) is round-to-nearest-even of the exact quotient.**  For `n, d ≠ 0` (with
+    `n` not absurdly longer than `d`) and a normal result, `rndRat s n d e` has sign `s` and value `q · 2^t` where, with
+    `N = n · 2^k` the numerator scaled so that the integer quotient has at least 64 bits and `P = 2^(L−52)` the weight of the bits
+    dropped from the doubled quotient, `q` is the integer nearest to `(2N/d) / P` — the exact quotient, not its floor — and the even
+    one on a tie. -/
+theorem rndRat_normal (s n d e : Nat) (hs : s ≤ 1) (hn : n ≠ 0) (hd : d ≠ 0) (hnd : Nat.log2 n ≤ Nat.log2 d + 64) :
+    let k := (Nat.log2 d + 64) - Nat.log2 n
+    let N := n <<< k
+    let y := 2 * (N / d) + (if N % d = 0 then 0 else 1)
+    let L := Nat.log2 y
+    2978 ≤ (e - k - 1) + L → (e - k - 1) + L < 5022 →
+    ∃ q, sgn (rndRat s n d e) = s ∧
+      man (rndRat s n d e) * 2 ^ eb (rndRat s n d e) = q * 2 ^ ((e - k - 1) + L - 52) ∧ two52 ≤ q ∧ q ≤ 2 * two52 ∧
+      2 * (2 * N) ≤ (2 * (q * 2 ^ (L - 52)) + 2 ^ (L - 52)) * d ∧
+      (2 * (q * 2 ^ (L - 52))) * d ≤ 2 * (2 * N) + 2 ^ (L - 52) * d ∧
+      ((2 * (2 * N) = (2 * (q * 2 ^ (L - 52)) + 2 ^ (L - 52)) * d ∨
+        2 * (2 * N) + 2 ^ (L - 52) * d = (2 * (q * 2 ^ (L - 52))) * d) → q % 2 = 0) := by
+  intro k N y L hlo hhi
+  -- the doubled quotient has at least 65 bits
+  obtain ⟨hnlo, _⟩ := log2_bounds n hn
+  obtain ⟨_, hdhi⟩ := log2_bounds d hd
+  have hN : 2 ^ (Nat.log2 d + 64) ≤ N := by
+    show 2 ^ (Nat.log2 d + 64) ≤ n <<< k
+    rw [Nat.shiftLeft_eq]
+    have : Nat.log2 d + 64 = Nat.log2 n + k := by omega
+    rw [this, Nat.pow_add]
+    exact Nat.mul_le_mul_right _ hnlo
+  have hq63 : 2 ^ 63 ≤ N / d := by
+    rw [Nat.le_div_iff_mul_le (Nat.pos_of_ne_zero hd)]
+    have : 2 ^ 63 * 2 ^ (Nat.log2 d + 1) = 2 ^ (Nat.log2 d + 64) := by rw [← Nat.pow_add]; congr 1; omega
+    calc 2 ^ 63 * d ≤ 2 ^ 63 * 2 ^ (Nat.log2 d + 1) := Nat.mul_le_mul_left _ (Nat.le_of_lt hdhi)
+      _ = 2 ^ (Nat.log2 d + 64) := this
+      _ ≤ N := hN
+  have hy64 : 2 ^ 64 ≤ y := by
+    show 2 ^ 64 ≤ 2 * (N / d) + _
+    have : (2:Nat) ^ 64 = 2 * 2 ^ 63 := by decide
+    omega
+  have hy0 : y ≠ 0 := by
+    have : 0 < 2 ^ 64 := Nat.two_pow_pos _
+    omega
+  have hL : 64 ≤ L := (Nat.le_log2 hy0).mpr hy64
+  -- rndRat is rnd of y at exponent e - k - 1
+  have hr : rndRat s n d e = rnd s y (e - k - 1) := by
+    unfold rndRat
+    simp only [cbv_eq', if_neg hn]
+    rfl
+  rw [hr]
+  obtain ⟨q, h1, h2, h3, h4, _, h6⟩ := rnd_normal s y (e - k - 1) hs hy0 hlo hhi
+  have hlt : e - k - 1 < e - k - 1 + L - 52 := by omega
+  obtain ⟨r1, r2, r3⟩ := h6 hlt
+  have hPH : 2 ^ (L - 52) = 2 * 2 ^ (L - 52 - 1) := by
+    have : L - 52 = (L - 52 - 1) + 1 := by omega
+    conv => lhs; rw [this, Nat.pow_succ]
+    omega
+  have hHe : 2 ^ (L - 52 - 1) % 2 = 0 := by
+    have : L - 52 - 1 = (L - 52 - 2) + 1 := by omega
+    rw [this, Nat.pow_succ]; omega
+  have := sticky_core N d y q (2 ^ (L - 52)) (2 ^ (L - 52 - 1)) (Nat.pos_of_ne_zero hd) hPH hHe rfl r1 r2 r3
+  exact ⟨q, h1, h2, h3, h4, this.1, this.2.1, this.2.2⟩
+
+/-- `div` rounds the exact quotient of the significands -/
+theorem div_eq_rndRat (a b : Nat) : div a b = rndRat ((sgn a + sgn b) % 2) (man a) (man b) (BIAS + eb a - eb b) := by
+  unfold div; simp only [cbv_eq']
+
+end CvssVerif.F64
+
+namespace CvssVerif.F64
+
+/-- `add` of two values of opposite sign (a subtraction) rounds the exact difference of the aligned significands, with the sign of the larger -/
+theorem add_opposite_sign (a b : Nat) (h : sgn a ≠ sgn b) :
+    let e := min (eb a) (eb b)
+    let ma := man a <<< (eb a - e)
+    let mb := man b <<< (eb b - e)
+    add a b = (if ma = mb then 0 else if ma > mb then rnd (sgn a) (ma - mb) e else rnd (sgn b) (mb - ma) e) := by
+  intro e ma mb
+  unfold add
+  simp only [cbv_eq']
+  have hmin : (if eb a ≤ eb b then eb a else eb b) = min (eb a) (eb b) := by
+    by_cases hle : eb a ≤ eb b <;> simp [hle, Nat.min_def]
+  simp only [hmin, if_neg h]
+  rfl
+
+/-- `sub` is `add` of the negated second operand -/
+theorem sub_eq_add_neg (a b : Nat) : sub a b = add a (neg b) := rfl
 
 end CvssVerif.F64
